@@ -216,8 +216,33 @@ def rule_path(ctx: Ctx) -> RuleReport:
         raise Bad7zFile(f"Unsafe path in archive entry: '{relative_path}'")
     return target_abs
 '''
+    # what leaves the sanitiser must be the very value the containment test looked at
+    rewritten = False
+    checked = set()
+    for n in walk_own(sj.node):
+        if isinstance(n, ast.Call) and isinstance(n.func, ast.Attribute) and n.func.attr == "startswith" and isinstance(n.func.value, ast.Name):
+            checked.add(n.func.value.id)
+    for n in walk_own(sj.node):
+        if isinstance(n, ast.Return) and n.value is not None:
+            if isinstance(n.value, ast.Name) and (n.value.id in checked or n.value.id == sj.node.args.args[0].arg):
+                # and it is not reassigned after the test
+                rep.ok({"_safe_join": f"returns the checked value {n.value.id}"})
+            else:
+                rewritten = True
+                rep.fail(Finding("C09-PATH", SZ, SANITISER, "return " + short(n.value, 80),
+                                 "the sanitiser returns something other than the path it checked for containment: whatever is done to the path after the check (separator rewriting, normalisation) is not covered by it", line=n.lineno))
+    for n in walk_own(sj.node):
+        if isinstance(n, (ast.Assign, ast.AugAssign)):
+            tg = n.targets[0] if isinstance(n, ast.Assign) else n.target
+            if isinstance(tg, ast.Name) and tg.id in checked:
+                tests = [c for c in walk_own(sj.node) if isinstance(c, ast.Call) and isinstance(c.func, ast.Attribute) and c.func.attr == "startswith" and isinstance(c.func.value, ast.Name) and c.func.value.id == tg.id]
+                if tests and n.lineno > min(t.lineno for t in tests):
+                    rewritten = True
+                    rep.fail(Finding("C09-PATH", SZ, SANITISER, short(n, 80), "the checked path is reassigned after the containment test", line=n.lineno))
     r = compare_function(sj.node, tmpl)
-    if r == "equal":
+    if rewritten:
+        pass
+    elif r == "equal":
         rep.ok({"_safe_join": "empty -> base; drive -> reject; absolute / leading separator -> reject; abspath must stay under base + os.sep"})
     elif r == "leaves":
         rep.fail(Finding("C09-PATH", SZ, SANITISER, " ; ".join(norm(s) for s in sj.node.body)[:300], "_safe_join has its structure but a test, operand or constant differs from the containment check", line=sj.node.lineno))
